@@ -230,6 +230,11 @@ def run(ctx):
                 continue
             srcs, unknown = PN.sources_of(api, b)
             for (ub, ubi, path) in unknown:
+                # a call written by a dependency macro inside a user-written function (py_fn!(..) as an argument) is the
+                # same dependency glue as the bodies skipped above
+                if ub.blocks[ubi]["tspan"].get("exp") and any(m.startswith("py_") or m == "wasm_bindgen" for m in ub.blocks[ubi]["tspan"].get("macros", [])):
+                    by_kind["(dependency macro glue, listed not judged)"] += 1
+                    continue
                 unknown_all.setdefault(path, ub.where(ubi))
             for s in srcs:
                 t = b.blocks[s.bi]["term"]
@@ -828,13 +833,54 @@ def boundary_python(ctx, facts, roles, tag):
     # the function registered with py_fn! returns PyResult<String> whose Err is built only there
     wrappers = [b for b in py if b.kind == "fn" and not b.span.get("exp") and "PyResult" in facts.items[b.key]["output"] or (b.kind == "fn" and not b.span.get("exp") and "cpython::PyErr" in facts.items.get(b.key, {}).get("output", ""))]
     ctx.check(len(wrappers) >= 1, "K3.py-wrapper", "binding function returns PyResult (%s)" % tag, "no user-written function returning PyResult found", where=py[0].where(), fn=py[0].key)
+    # "an Err becomes the exception" is stated on where exception values come from and on what consumes a Result, not on
+    # how the conversion is spelled (map_err at the end, a combinator pipeline, a method of an error enum, `?`):
+    #   * the type system already says that the Err a binding function returns is a PyErr; a PyErr value *originates* in a
+    #     call into the cpython crate (std combinators and `?` only pass it on, local functions of the interface are
+    #     judged themselves): a constructor — ValueError only, K3.py-valueerror above — or the Python runtime's own error
+    #     handed on (PyModule::add …).  An origin anywhere else (another crate, a function outside the interface) is
+    #     not read.
+    #   * no Result in the user-written interface code is consumed by an API that panics on Err or drops it
+    #     (unwrap/expect are K1 sources as well; ok/unwrap_or*/is_ok/is_err/err lose the error: a failed call would end
+    #     as a value instead of the exception).
+    DROPS_ERR = re.compile(r"^std::result::Result::<T, E>::(unwrap|expect|unwrap_unchecked|ok|err|unwrap_or|unwrap_or_else|unwrap_or_default|is_ok|is_err|is_ok_and|is_err_and|unwrap_err|expect_err|into_ok)$")
+    NOT_READ = re.compile(r"^std::result::Result::<T, E>::(iter|iter_mut|into_iter|map_or|map_or_else|as_ref|as_mut|as_deref|transpose|flatten|copied|cloned)$|IntoIterator>::into_iter$")
+    user = [b for b in py if not b.span.get("exp")]
+
+    def op_local(o):
+        return o["place"]["local"] if o.get("k") in ("Copy", "Move") else None
     for w in wrappers:
-        r = strip_refs(w.trace(0))
-        good = r[0] == "call" and r[1] and r[1]["path"] == "std::result::Result::<T, E>::map_err"
-        inner = strip_refs(r[2][0]) if good else None
-        good = good and inner[0] == "call" and inner[1]["local"]
-        ctx.check(bool(good), "K3.py-maps-err", "%s maps every Err to the exception (%s)" % (w.key.split("::", 1)[1], tag),
-                  "the binding function's result is %s (expected inner(..).map_err(|e| PyErr::new::<ValueError,_>))" % show_expr(r), where=w.where(), fn=w.key, nontrivial=True)
+        unit = [b for b in user if b.key == w.key or b.key.startswith(w.key + "::{closure#")]
+        origins, foreign, dropped = [], [], []
+        for b in unit:
+            for bi, t in b.calls():
+                c = callee_of(t)
+                p = (c or {}).get("path") or ""
+                if c is not None and DROPS_ERR.match(p) and not (b.blocks[bi]["tspan"].get("exp") and any(m.startswith("py_") for m in b.blocks[bi]["tspan"].get("macros", []))):
+                    dropped.append((b, bi, p))
+                if c is not None and NOT_READ.search(p) and t["args"] and op_local(t["args"][0]) is not None and "std::result::Result<" in b.local_ty(op_local(t["args"][0])):
+                    foreign.append((b, bi, "a Result handed to %s" % p))
+                dty = b.local_ty(t["dest"]["local"]) if t.get("dest") and not t["dest"]["proj"] else ""
+                if "cpython::PyErr" not in dty:
+                    continue
+                if c is None:
+                    foreign.append((b, bi, "an indirect call"))
+                elif c["local"]:
+                    if not any(c["key"] == x.key for x in py):
+                        foreign.append((b, bi, c["path"]))
+                elif c["crate"] == "cpython":
+                    origins.append((b, bi, c))
+                elif c["crate"] not in ("core", "std", "alloc"):
+                    foreign.append((b, bi, c["path"]))
+        key = "%s maps every Err to the exception (%s)" % (w.key.split("::", 1)[1], tag)
+        if dropped:
+            b, bi, p = dropped[0]
+            ctx.fail("K3.py-maps-err", key, "the binding consumes a Result with %s: an Err does not become the Python exception (it panics or is dropped)" % p, where=b.where(bi), fn=b.key)
+        elif foreign:
+            b, bi, p = foreign[0]
+            ctx.unread("K3.py-maps-err", key, "not read: %s (an exception value that comes neither from the cpython crate nor from the interface itself, or a Result consumed in a way the rule does not follow)" % p, where=b.where(bi), fn=b.key)
+        else:
+            ctx.ok("K3.py-maps-err", key, nontrivial=True, sample={"binding": w.key, "exception values originate in": sorted({c["path"] for _, _, c in origins})})
 
 
 def depth_limit(ctx, facts, tag):
